@@ -244,6 +244,10 @@ def constness_probes():
     out.append(("const:aug_after_const", HDR + "x = 5\nx += d0.Setting\ndb.Setting = x\nz = 2\nfor i in range(2):\n    z *= 3\ndb.Mode = z\n"))
     out.append(("const:global_set_in_function", HDR + "mode = 1\n\ndef toggle(v):\n    global mode\n    if v > 0:\n        mode = 2\n    db.Mode = mode\n\ntoggle(d0.Setting)\ndb.Setting = mode\ntoggle(d1.Setting)\ndb.On = mode\n"))
     out.append(("const:loop_flag", HDR + "found = 0\nfor i in range(3):\n    if Stack(d0)[i] > 4:\n        found = 1\ndb.Setting = found\n"))
+    out.append(("const:if_false_else", HDR + "x = d0.Setting\nif False:\n    db.Setting = 1\nelse:\n    db.Setting = x + 2\nif 0:\n    db.Mode = 1\nelif x > 5:\n    db.Mode = 2\nelse:\n    db.Mode = 3\nif 1 > 2:\n    db.On = 1\nelse:\n    db.On = x\n"))
+    out.append(("const:if_false_else_in_func", HDR + "def regulate(level):\n    if False:\n        d1.Setting = 0\n    elif level > 50:\n        d1.Setting = 1\n    else:\n        d1.Setting = 2\n\nwhile True:\n    yield_()\n    regulate(d0.Setting)\n    if 1 > 2:\n        d2.Setting = 7\n    else:\n        d2.Setting = 8\n"))
+    out.append(("const:named_false_else", HDR + "USE_HEATER = False\nLEVEL = 0\n\ndef report(v):\n    db.Setting = v\n    return v + 1\n\nx = d0.Setting\nif USE_HEATER:\n    db.On = 1\nelse:\n    d1.Setting = report(x)\nif LEVEL:\n    db.Mode = 1\nelse:\n    db.Mode = x\nd2.Setting = 99\n"))
+    out.append(("const:if_true_else", HDR + "x = d0.Setting\nif True:\n    db.Setting = x\nelse:\n    db.Setting = 1\nif 2 > 1:\n    db.Mode = x + 1\nelif x:\n    db.Mode = 5\n"))
     out.append(("const:true_constant_still_folds", HDR + "k = 6\nh = k * 7\ndb.Setting = h + d0.Setting\n"))
     return out
 
